@@ -6,10 +6,11 @@
      Parse(chars, o)      character string  ->  [err |-> "", toks |-> tokens]  or  [err |-> class]
      Matches(toks, p, o)  the reference matcher: a plain recursive operator over symbol sequences
                           (this is the normative definition)
-     Digest / MatchNums   the same language computed by derivatives of the token sequence while
-                          walking the tree of all paths over an alphabet up to a length bound
-                          (shared prefixes are matched once, dead prefixes are pruned); TLC checks
-                          in GlobSelf (MCGlob.tla) that it agrees with Matches.
+     DMatches, Digest,    the same language computed by derivatives of the token sequence, for whole
+     DigestSum, MatchNums path universes at once: Digest counts on the automaton of reachable matcher
+                          states, DigestSum / MatchNums walk the tree of all paths over an alphabet up
+                          to a length bound (shared prefixes matched once, dead prefixes pruned).
+                          TLC checks in MCGlob!SelfOK that they agree with Matches.
 
    Characters are byte values (naturals); a path is a sequence of bytes.  `?` and a negated
    class consume exactly one byte.  Only `/` is a path separator (Unix).
